@@ -451,6 +451,11 @@ def _canon_len(seq):
     return t
 
 
+PURE_PREDICATES = {"starts_with", "ends_with", "is_empty", "contains", "eq_ignore_ascii_case", "is_char_boundary", "is_ascii",
+                   "is_ascii_digit", "is_ascii_hexdigit", "is_ascii_alphabetic", "is_ascii_alphanumeric", "is_ascii_uppercase",
+                   "is_ascii_lowercase", "is_ascii_whitespace", "is_ascii_graphic", "is_ascii_punctuation", "is_ascii_control"}
+
+
 ASCII_RANGES = {"is_ascii_digit": (48, 57), "is_ascii_uppercase": (65, 90), "is_ascii_lowercase": (97, 122),
                 "is_ascii": (0, 127), "is_ascii_graphic": (33, 126)}
 
@@ -999,6 +1004,11 @@ class PX:
         return ("opaque_operand", k)
 
     def eval_const(self, fr, o):
+        if "int" in o and o.get("ty", {}).get("k") == "adt":
+            # a constant of a scalar newtype (`const START: State = State(0)`): the record around the scalar
+            a = self.facts.adts.get(o["ty"].get("adt"))
+            if a and a.get("local") and a["kind"] == "struct" and len(a["variants"][0]["fields"]) == 1:
+                return agg("adt", a["path"], None, ((a["variants"][0]["fields"][0]["name"], const(o["int"])),))
         if "int" in o:
             return const(o["int"])
         if "int_s" in o:
@@ -1013,6 +1023,9 @@ class PX:
             return ("bytes", o["bytes"])
         if "fn" in o:
             return ("fn", o["fn"], o.get("fn_full"))
+        if "array_ints" in o:
+            # a constant array of scalars (also when it is a named const): the array value
+            return agg("array", None, None, tuple((str(i), const(x)) for i, x in enumerate(o["array_ints"])))
         if "named" in o:
             return ("named", o["named"])
         if "promoted" in o:
@@ -1487,7 +1500,11 @@ class PX:
                 cargs.append(("&", a[1]))
             else:
                 cargs.append(a)
-        res = ("call", name, tuple(cargs), uid)
+        # a pure predicate of immutable values (the arguments are value snapshots): the same question asked twice is one term
+        pure = rt_bool = t["dest"]["ty"].get("k") == "bool"
+        pure = rt_bool and name.split("::")[-1] in PURE_PREDICATES and (name.startswith("core::str::<impl str>::") or
+                                                                       name.startswith("core::slice::<impl [T]>::") or "<impl u8>::" in name or "<impl char>::" in name)
+        res = ("call", name, tuple(cargs), None if pure else uid)
         rt = t["dest"]["ty"]
         if rt.get("k") == "bool":
             self.mark_bool(res)
@@ -1560,6 +1577,13 @@ class PX:
                 e2["result"] = ("never",)
                 self.emit(s2, e2)
                 self._end("diverge", s2, where=(f2.info.name, f2.bb))
+                continue
+            if "backedge" in o:
+                # one turn of a summarised iteration that needs no code of its own (the accumulator's new value is given)
+                e2["result"] = o.get("value")
+                self.emit(s2, e2)
+                s2.frames.append(s2.frames[-1].copy())      # (rules read the loop's frame below the turn's frame, as for an expanded closure)
+                self._end("backedge", s2, value=o.get("value"), where=o["backedge"])
                 continue
             if "inline" in o:
                 e2["inlined"] = True
